@@ -83,7 +83,7 @@ def _wagner(k):
         from kaira.models.fec.decoders.wagner_soft_decision_decoder import WagnerSoftDecisionDecoder
 
         enc = codes.build(Cfg("spc", k))
-        _WAG[k] = (enc, WagnerSoftDecisionDecoder(enc))
+        _WAG[k] = (enc, codes.warm(WagnerSoftDecisionDecoder(enc), k + 1, soft=True))
     return _WAG[k]
 
 
@@ -227,6 +227,7 @@ def minsum_decoder(cfg, iters, alpha, beta):
         from kaira.models.fec.decoders.min_sum_ldpc import MinSumLDPCDecoder
 
         _MS[key] = MinSumLDPCDecoder(codes.build(cfg), bp_iters=iters, scaling_factor=alpha, offset=beta)
+        codes.warm(_MS[key], _MS[key].encoder.code_length, soft=True)
     return _MS[key]
 
 
@@ -357,6 +358,7 @@ def bp_decoder(cfg, iters=5, arctanh=True):
         from kaira.models.fec.decoders.belief_propagation import BeliefPropagationDecoder
 
         _BPD[key] = BeliefPropagationDecoder(codes.build(cfg), bp_iters=iters, arctanh=arctanh)
+        codes.warm(_BPD[key], _BPD[key].encoder.code_length, soft=True)
     return _BPD[key]
 
 
@@ -564,7 +566,7 @@ def _rm_soft(cfg):
         from kaira.models.fec.decoders.reed_muller_decoder import ReedMullerDecoder
 
         enc = codes.build(cfg)
-        _RMD[cfg] = (enc, ReedMullerDecoder(enc, input_type="soft"))
+        _RMD[cfg] = (enc, codes.warm(ReedMullerDecoder(enc, input_type="soft"), enc.code_length, soft=True))
     return _RMD[cfg]
 
 
